@@ -26,7 +26,7 @@ CHECKS = [
   "Histories over all public calls, restarts with index damage, one-shot injected I/O failures (n-th create/open/write/short write/sync on blob or index files) and crash-restarts with harness-made blob damage that forces quarantine. After every step every *.blob (work dir and corrupted dir) is compared byte-wise with its previous snapshot (prefix-monotone, or moved intact to the corrupted dir and immutable there), new blob ids must never have been used in either directory, and the tap trace must show only append-position writes to blobs, no truncate/remove/foreign rename of a blob, and no mutation event at all while a batch of every query kind runs at idle.",
   "Blob damage injected by the harness re-baselines the snapshot. A failed write keeps its reserved range for the session; after a restart the file's real length is the baseline. Crash copies are exercised by C06 with its own no-harm clauses."),
  ("C08", "exploration", "concurrent history checking: N real client tasks with logical-clock stamps, max-register linearizability conditions, sequential-model equality at quiescence, independent parse of every blob file",
-  "2-200 client tasks (bursts of 500-12000 writers) run seeded scripts against one Storage while a maintenance task switches/syncs/frees/closes underneath and blobs rotate every 20-80 records, on three runtime configurations and on fresh or reopened active blobs. Every completed read is checked against the three max-register linearizability conditions (nothing invented, not stale, monotone), the final state against the sequential model of acknowledged operations, and every blob file against tiling / offset / checksum / exactly-once rules. Deadlock is reported only on a structural witness from the H3 probe.",
+  "2-200 client tasks (bursts of 500-12000 writers) run seeded scripts against one Storage while a maintenance task switches/syncs/frees/closes underneath and blobs rotate every 20-80 records, on three runtime configurations and on fresh or reopened active blobs. Every completed read is checked against the three max-register linearizability conditions (nothing invented, not stale, monotone), the final state against the sequential model of acknowledged operations, and every blob file against tiling / offset / checksum / exactly-once rules. Deadlock is reported only on a structural witness from the H3 probe. A second phase (lifecycle storm) closes the active blob and releases 4-32 clients by a barrier that all restore / create the active blob and write a fresh key, for 40-140 rounds per case; every acknowledged write must stay readable after each round, at quiescence and after a restart.",
   "Weakest fit of the technique: interleavings are sampled from the real scheduler, not enumerated or controlled; a race with a microsecond window can be missed. The replay re-runs the same scripts but re-samples the schedule. Open known finding: the ~8000-writer channel/lock deadlock (burst phase)."),
  ("C09", "exploration", "differential property testing of the index through a probe hook (in-memory vs on-disk vs sorted-list model) + enumerated shape sweep",
   "Generated header multisets (11 key lengths, fan-out 5..454, runs around block boundaries, ties, markers) are pushed into the real index, dumped, loaded back and reopened; every lookup kind for present and absent keys is compared in all four stages with an independent sorted-list model. Enumerated sweep of key counts around powers of the fan-out per key length.",
